@@ -6,6 +6,12 @@ from mc.worlds import cellcfg, cellmon, mastercfg, mastermon
 BUDGET = {'quick': 600, 'thorough': 2400}
 
 
+class Spec(_masterprop.MasterSpec):
+    # a cycle that raises (e.g. the scheduler's own `assert
+    # app.has_identity()`) ends without the invariants being established
+    exception_clause = 'cycle-failed'
+
+
 def _k4():
     cfg = cellcfg.k4()
     cfg['monitors'] = [cellmon.mon_c05]
@@ -57,6 +63,7 @@ def _m1():
         ('app-', 0), ('app-', 1), ('prio', 0, 100),
         ('idg', 'g', 0), ('idg', 'g', 1), ('idg', 'g', 2), ('idg-', 'g'),
         ('pres-', 's0'), ('pres+', 's0', 0),
+        ('srv', 's0', 1), ('srv', 's0', 0),
         ('noop',), ('restart',),
     )
     return cfg
@@ -80,11 +87,11 @@ def _m4():
 def configs(ctx):
     if ctx.quick:
         return [('K4', _k4(), 4, 2), ('K4f', _k4f(), 3, 1),
-                ('M1', _m1(), 3, 1, _masterprop.MasterSpec),
-                ('M4', _m4(), 5, 0, _masterprop.MasterSpec)]
+                ('M1', _m1(), 3, 1, Spec),
+                ('M4', _m4(), 5, 0, Spec)]
     return [('K4', _k4(), 6, 2), ('K4f', _k4f(), 5, 1),
-            ('M1', _m1(), 5, 2, _masterprop.MasterSpec),
-            ('M4', _m4(), 8, 1, _masterprop.MasterSpec)]
+            ('M1', _m1(), 5, 2, Spec),
+            ('M4', _m4(), 8, 1, Spec)]
 
 
 RULE = ('BFS over histories of arrivals/removals/evictions/server failure/'
